@@ -221,3 +221,108 @@ def e_remote(k: int) -> bool:
         if not ok:
             _say(msg)
         return ok
+
+
+# --------------------------------------------------------------------------- atomic replacement seen by a reader in progress (C13_d)
+class _HookedFile:
+    """A real file as download destination (truncate() extends it, unlike BytesIO); the n-th call made on it lets another
+    client complete an upload of the same name first."""
+
+    def __init__(self, path, at, action):
+        self.f = open(path, 'w+b')
+        self.at, self.action, self.n = at, action, 0
+
+    def _tick(self):
+        if self.n == self.at:
+            self.action()
+        self.n += 1
+
+    def truncate(self, *a):
+        self._tick()
+        return self.f.truncate(*a)
+
+    def write(self, b):
+        self._tick()
+        return self.f.write(b)
+
+    def seek(self, *a):
+        self._tick()
+        return self.f.seek(*a)
+
+    def __getattr__(self, n):
+        return getattr(self.f, n)
+
+
+SIZES_RACE = [0, 1, 5, 3 * CHUNK + 1, 2 * CHUNK]
+
+
+def download_race_case(old_i, new_i, at, how, dest_kind):
+    """Object `n` holds OLD; while a reader is inside download/download_stream another client replaces it with NEW (upload or
+    upload_stream, or deletes it). The reader must end up with OLD or NEW in full (or an error for a delete) - an upload
+    replaces the object atomically."""
+    with world.scratch('c13r') as d:
+        be, other = LB.Local(str(d / 'r')), LB.Local(str(d / 'r'))
+        old, new = bytes([0x41]) * SIZES_RACE[old_i], bytes([0x42]) * SIZES_RACE[new_i]
+        name = 'data/ab/obj'
+        be.upload(name, old)
+        fired = []
+
+        def action():
+            fired.append(1)
+            if how == 0:
+                other.upload(name, new)
+            elif how == 1:
+                other.upload_stream(name, io.BytesIO(new), len(new), chunk_size=CHUNK)
+            else:
+                other.delete(name)
+        if dest_kind == 0:
+            dest = _HookedFile(d / 'dest.bin', at, action)
+        else:
+            class _HB(io.BytesIO):
+                n = 0
+
+                def _t(self):
+                    if self.n == at:
+                        action()
+                    self.n += 1
+
+                def truncate(self, *a):
+                    self._t()
+                    return super().truncate(*a)
+
+                def write(self, b):
+                    self._t()
+                    return super().write(b)
+            dest = _HB()
+        try:
+            be.download_stream(name, dest, chunk_size=CHUNK)
+        except OSError as e:
+            if how == 2:
+                return True, 'error after delete', len(fired)
+            return False, f'download_stream raised {e!r} although the object existed throughout', len(fired)
+        dest.seek(0, 2)
+        end = dest.tell()
+        if dest_kind == 0:
+            dest.f.flush()
+            got = (d / 'dest.bin').read_bytes()
+        else:
+            got = dest.getvalue()
+        ok = got in ((old, new) if how != 2 else (old,))
+        if not ok:
+            return False, (f'reader got {len(got)} bytes ({got[:8]!r}..., {got.count(0)} NUL) while another client replaced {len(old)} x A by {len(new)} x B '
+                           f'at stream call #{at}: neither the old nor the new object'), len(fired)
+        return True, 'old' if got == old else 'new', len(fired)
+
+
+def e_download_race(k: int) -> bool:
+    """
+    pre: 0 <= k < 5 * 5 * 5 * 3 * 2
+    post: _
+    """
+    oi, ni, at, how, dk = digits(k, [5, 5, 5, 3, 2])
+    with NoTracing():
+        ok, msg, fired = download_race_case(oi, ni, at, how, dk)
+        tick('e_download_race', [oi, ni, at, how, dk, fired, msg[:5]])
+        if not ok:
+            _say(msg)
+        return ok
